@@ -72,7 +72,7 @@ Qed.
 
 (* ---------- the whole-dataset side, for any ancestor/descendant pair ---------- *)
 Theorem full_counts t fo A D :
-  wfb t fo = true -> A <> D ->
+  wfbc t fo = true -> A <> D ->
   let m := hogmap fo A D in
   List.length (hm_gain m) = list_sum (map (fun r => List.length (gains A D false r)) (fo_roots fo)) /\
   List.length (hm_retained m) = list_sum (map (cf D) (ANs A fo)) /\
@@ -323,7 +323,7 @@ Proof.
   destruct Hin as [->|Hin]; [eapply NoDup_app_l; eauto|]. apply IH; auto. eapply NoDup_app_r; eauto.
 Qed.
 
-Lemma family_refs_nodup t fo r : wfb t fo = true -> In r (fo_roots fo) -> NoDup (map href (all_of r)).
+Lemma family_refs_nodup t fo r : wfbc t fo = true -> In r (fo_roots fo) -> NoDup (map href (all_of r)).
 Proof.
   intros Hwf Hr. pose proof (wfb_refs t fo Hwf) as Hn. unfold all_nodes_of in Hn.
   rewrite map_flat_map' in Hn. eapply (NoDup_flat_map_in (fun h => map href (all_of h))); eauto.
@@ -392,7 +392,7 @@ Qed.
 
 (* ---------- the per-family side ---------- *)
 Theorem family_counts t fo r a A :
-  wfb t fo = true -> In r (fo_roots fo) -> htax r <> a :: A ->
+  wfbc t fo = true -> In r (fo_roots fo) -> htax r <> a :: A ->
   exists hf, hog_node r (a :: A) = (a :: A, List.length (members_at r (a :: A)), Some hf) /\
     hf_retained hf = list_sum (map (cf (a :: A)) (anodes A r)) /\
     hf_dupl hf = list_sum (map (ct (a :: A)) (anodes A r)) /\
@@ -487,7 +487,7 @@ Lemma feat_eta x : x = {| ft_retained := ft_retained x; ft_dupl := ft_dupl x; ft
 Proof. destruct x; reflexivity. Qed.
 
 Lemma fam_feat_spec t fo r a A :
-  wfb t fo = true -> In r (fo_roots fo) ->
+  wfbc t fo = true -> In r (fo_roots fo) ->
   let D := a :: A in
   ft_retained (fam_feat r D) = list_sum (map (cf D) (anodes A r)) /\
   ft_dupl (fam_feat r D) = list_sum (map (ct D) (anodes A r)) /\
@@ -517,7 +517,7 @@ Qed.
 
 (* ---------- C10, additivity ---------- *)
 Theorem additive t fo a A :
-  wfb t fo = true ->
+  wfbc t fo = true ->
   full_node fo (a :: A) =
     (a :: A, list_sum (map (fun r => List.length (members_at r (a :: A))) (fo_roots fo)),
      Some (feat_sum (map (fun r => fam_feat r (a :: A)) (fo_roots fo)))).
@@ -582,7 +582,7 @@ Proof.
 Qed.
 
 Theorem additive_covering t fo a A :
-  wfb t fo = true ->
+  wfbc t fo = true ->
   full_node fo (a :: A) =
     (a :: A, list_sum (map (fun r => List.length (members_at r (a :: A))) (fo_roots fo)),
      Some (feat_sum (map (fun r => fam_feat r (a :: A)) (filter (covers (a :: A)) (fo_roots fo))))).
